@@ -9,6 +9,8 @@ mod c06;
 mod c07;
 mod c08;
 mod c11;
+mod c12;
+mod c15;
 mod gen;
 mod c13;
 mod common;
@@ -57,6 +59,8 @@ fn main() {
             "fault" => c04::replay(case),
             k if k.starts_with("c11-") => c11::replay(case),
             "c08" => c08::replay(case),
+            "c12" => c12::replay(case),
+            "c15" => c15::replay(case),
             "delete" => c05::replay(case),
             "e3" => match case["check"].as_str().unwrap_or("") {
                 "C06" => c06::replay(case),
@@ -120,6 +124,8 @@ fn main() {
         "C07" => c07::run(&report, &budget),
         "C08" => c08::run(&report, &budget),
         "C11" => c11::run(&report, &budget),
+        "C12" => c12::run(&report, &budget),
+        "C15" => c15::run(&report, &budget),
         _ => {
             eprintln!("unknown property {id}");
             std::process::exit(2);
